@@ -18,6 +18,7 @@
 import SH.Model.Delivery
 import SH.Lemmas.Delivery
 import SH.Lemmas.DeliveryMain
+import SH.Lemmas.DeliveryEraser
 import SH.Lemmas.DeliveryLive
 
 namespace SH.Props.C01
@@ -641,6 +642,33 @@ example :
     let s := run (init true false 50 1000 3 200) [.overflow 198, .pop 50, .recv 1, .overflow 207, .pop 50, .tickRace 0 204 211 2 true]
     (s.inserted.contains 207, s.rejected, s.resps.map (fun a => (a.sec, a.discard, a.why))) =
       (true, [], [(198, true, .inserted), (207, true, .inserted)]) := by decide
+
+/-! ### the fail-safe eraser (goEraseHistoric) -/
+
+example : eraserDiskUsedSource = "s.HistoricBucketsDataSizeDisk()" := rfl
+
+/-- the eraser pass keeps the agent invariant and every second accounted for (a second it removes is recorded in `dropped`) -/
+theorem eraser_keeps (Q : Nat → Prop) (a : Agent) (now : Nat) (over : Bool) (h : AInv Q a []) :
+    AInv Q (eraserStep a now over) [] ∧ ∀ t, safeX Q a [] t → safeX Q (eraserStep a now over) [] t :=
+  keeps_eraserStep now over h
+
+/-- **eraser_drops_only_over_share.** If the shard is not over its own share, the eraser does not erase the second it
+popped (unless it left the historic window): it hands it back to the historic queue exactly as a failed send does. -/
+theorem eraser_drops_only_over_share (a a' : Agent) (c : Cbd) (now : Nat) (hp : pop a now = (a', some c))
+    (hin : outOfWindow a'.now c.sec a'.window = false) : eraserStep a now false = appendHist a' c := by
+  unfold eraserStep; simp [hp, hin]
+
+/-- … and `over` is about THIS shard: three shards at 60% of a share each are not over their share, although together they
+hold more than one share (what the variant that sums all shards compares) -/
+example : overShare [60, 60, 60] 0 300 = false ∧ decide (([60, 60, 60] : List Nat).sum > 300 / 3) = true := by decide
+example : overShare [60, 120, 60] 1 300 = true := by decide
+
+/-- non-vacuity: an in-window second with a disk copy survives the pass of an eraser whose shard is under its share, and is
+dropped (recorded) when the shard is over it -/
+example :
+    let a := toHistoric (initAgent true false 50 1000) ⟨150, 0, true⟩
+    ((eraserStep a 10 false).hist.map (·.sec), (eraserStep a 10 false).recs.map (·.sec), (eraserStep a 10 true).recs.map (·.sec),
+     (eraserStep a 10 true).dropped) = ([150], [150], [], [150]) := by decide
 
 /-! ### liveness, schedule-existence form -/
 
